@@ -697,6 +697,9 @@ func c04Discharge(w *World, c *Check, bc *boundsCtx, fn *ssa.Function, ob *c04Ob
 				}
 			}
 		}
+		if callbackDialArg(w, bc, fn, ta) {
+			return true, "dial-network-contract(callback)"
+		}
 		return false, "the dynamic type of " + ob.desc + " is not fixed by construction"
 	case "nil-logger":
 		call := ob.in.(*ssa.Call)
@@ -1296,4 +1299,127 @@ func readOnlyFieldsLocal(a *ssa.Alloc) bool {
 		return true
 	}
 	return ok(a, 0)
+}
+
+var dialConnType = map[string]string{"tcp": "*net.TCPConn", "tcp4": "*net.TCPConn", "tcp6": "*net.TCPConn", "udp": "*net.UDPConn", "udp4": "*net.UDPConn", "udp6": "*net.UDPConn"}
+
+// callbackDialArg: the assertion is on parameter j of a function literal that exists only as
+// argument k of one call H(…, "udp"|"tcp", …, literal) of a module function H; H does nothing with
+// its parameter k but call it, and at every such call the j-th argument is the connection of a
+// successful net.Dial/DialTimeout whose network operand is H's parameter m — the very parameter
+// that receives the constant network name at the call that passes the literal. Parameters are
+// immutable, so inside that activation of H the connection's type is fixed by the constant.
+func callbackDialArg(w *World, bc *boundsCtx, lit *ssa.Function, ta *ssa.TypeAssert) bool {
+	par, ok := bc.canon(ta.X).(*ssa.Parameter)
+	if !ok || lit.Parent() == nil || par.Parent() != lit {
+		return false
+	}
+	j := -1
+	for i, p := range lit.Params {
+		if p == par {
+			j = i
+		}
+	}
+	if j < 0 {
+		return false
+	}
+	// the one use of the literal
+	var site *ssa.Call
+	k := -1
+	uses := 0
+	for _, b := range lit.Parent().Blocks {
+		for _, in := range b.Instrs {
+			for _, op := range in.Operands(nil) {
+				v := *op
+				if mc, isMC := v.(*ssa.MakeClosure); isMC {
+					v = mc.Fn
+				}
+				if v != ssa.Value(lit) {
+					continue
+				}
+				if _, isMC := in.(*ssa.MakeClosure); isMC {
+					continue // counted at the closure's own use
+				}
+				uses++
+				call, isCall := in.(*ssa.Call)
+				if !isCall || call.Call.StaticCallee() == nil {
+					return false
+				}
+				for i, a := range call.Call.Args {
+					av := a
+					if mc, isMC := av.(*ssa.MakeClosure); isMC {
+						av = mc.Fn
+					}
+					if av == ssa.Value(lit) {
+						site, k = call, i
+					}
+				}
+			}
+		}
+	}
+	if uses != 1 || site == nil || k < 0 {
+		return false
+	}
+	h := site.Call.StaticCallee()
+	if h == nil || len(h.Blocks) == 0 || h.Pkg == nil || !inModule(h.Pkg.Pkg.Path()) || k >= len(h.Params) {
+		return false
+	}
+	cb := h.Params[k]
+	if cb.Referrers() == nil {
+		return false
+	}
+	hb := newBoundsCtx(w, h)
+	calls := 0
+	for _, ref := range *cb.Referrers() {
+		switch x := ref.(type) {
+		case *ssa.DebugRef:
+		case *ssa.Call:
+			if x.Call.Value != ssa.Value(cb) || j >= len(x.Call.Args) {
+				return false
+			}
+			for _, a := range x.Call.Args {
+				if a == ssa.Value(cb) {
+					return false
+				}
+			}
+			ex, isEx := hb.canon(x.Call.Args[j]).(*ssa.Extract)
+			if !isEx || ex.Index != 0 {
+				return false
+			}
+			dial, isCall := ex.Tuple.(*ssa.Call)
+			if !isCall || dial.Call.StaticCallee() == nil {
+				return false
+			}
+			if n := calleeName(dial.Call.StaticCallee()); n != "net.DialTimeout" && n != "net.Dial" {
+				return false
+			}
+			if !hb.errNilAt(dial, x) {
+				return false
+			}
+			np, isPar := dial.Call.Args[0].(*ssa.Parameter)
+			if !isPar {
+				return false
+			}
+			m := -1
+			for i, p := range h.Params {
+				if p == np {
+					m = i
+				}
+			}
+			if m < 0 || m >= len(site.Call.Args) {
+				return false
+			}
+			nc, isC := site.Call.Args[m].(*ssa.Const)
+			if !isC || nc.Value == nil || nc.Value.Kind() != constant.String {
+				return false
+			}
+			if want := dialConnType[constant.StringVal(nc.Value)]; want == "" || ta.AssertedType.String() != want {
+				return false
+			}
+			calls++
+		default:
+			return false
+		}
+	}
+	return calls > 0
 }
